@@ -1149,6 +1149,9 @@ def structured_array_to_string(
 
     # loop through flat fields and flatten to single array
     count = len(array)
+    if count == 0:
+        # no rows: `reshape((0, -1))` can not infer a column count
+        return ""
     # will upgrade everything to a float
     flattened = np.hstack(
         [array[k].reshape((count, -1)) for k in array.dtype.names]
